@@ -407,6 +407,14 @@ __get_dir(struct dt_dt_s d, const struct dseq_clo_s *clo)
 	return 0;
 }
 
+static bool
+__tdur_idle_p(const struct dseq_clo_s *clo)
+{
+/* return true if the increment leaves the (time-only) FST where it is */
+	struct dt_dt_s nxt = date_add(clo->fst, clo->ite, clo->nite);
+	return nxt.t.u == clo->fst.t.u && nxt.d.u == clo->fst.d.u;
+}
+
 static struct dt_dt_s
 __fixup_fst(struct dseq_clo_s *clo)
 {
@@ -694,7 +702,9 @@ cannot convert calendric system internally");
 	}
 
 	if (__durstack_naught_p(clo.ite, clo.nite) ||
-	    !(clo.dir = __get_dir(clo.fst, &clo))) {
+	    !(clo.dir = __get_dir(clo.fst, &clo)) ||
+	    /* increments that don't move a time, days or months say */
+	    dt_sandwich_only_t_p(clo.fst) && __tdur_idle_p(&clo)) {
 		if (!argi->quiet_flag) {
 			error("\
 increment must not be naught");
